@@ -92,7 +92,9 @@ E_RunBegin(c) ==
 (* doCheck lists the fail files it is going to try: the -rapid.failfile one,
    then everything the discovery glob finds *)
 V_FFList(files) ==
-  If(\E f \in cfg.expectFF : \A i \in 1..Len(files) : files[i] # f, "ff_not_found")
+  \* (every file of the test's directory that reads as a fail file, and the one named with -rapid.failfile, must be tried; entries that
+  \*  are no fail files anyway -- unreadable, garbage -- need not even be listed)
+  If(\E f \in cfg.mustFF : \A i \in 1..Len(files) : files[i] # f, "ff_not_found")
   \cup If(cfg.failfile # "" /\ (files = <<>> \/ files[1] # cfg.failfile), "ff_explicit_not_first")
   \cup If(pc # "list", "ff_list_order")
 E_FFList(files, base) ==
